@@ -86,8 +86,19 @@ def compositions(total, cap=64):
     return out
 
 
+def content_big(n, sw, ch):
+    out = bytearray()
+    top = 2 ** (8 * sw - 1) - 1
+    for i in range(n):
+        for c in range(ch):
+            out += int((i * 7 + c * 3 + 1) % top).to_bytes(sw, "little", signed=True)
+    return bytes(out)
+
+
 class SourceSys:
     """A real source next to the (open flag, cursor) reference model."""
+
+    big_menu = None
 
     def __init__(self, kind, data, sw, ch, path):
         L = lib()
@@ -119,6 +130,11 @@ class SourceSys:
     # -- alphabet
     def ops(self):
         n = self.n
+        if self.big_menu:
+            ops = [("read", k) for k in self.big_menu] + [("open",), ("close",)]
+            if self.kind == "buffer":
+                ops += [("set_pos", 4097), ("set_pos", -4097), ("get_pos",)]
+            return ops
         sizes = [1, 2, 3, max(n, 1), n + 1]
         ops = [("read", s) for s in sorted(set(sizes))]
         if self.kind != "stdin":
@@ -243,7 +259,8 @@ class SourceSys:
 def work(task):
     kind, n, sw, ch, d, unpruned, tier = task
     lib()
-    data = content(n, sw, ch)
+    big = n > 1000
+    data = content_big(n, sw, ch) if big else content(n, sw, ch)
     path = None
     if kind in ("raw", "wav"):
         path = os.path.join(common.scratch_dir(), "src_%d_%d_%d.%s" % (n, sw, ch, kind))
@@ -258,9 +275,12 @@ def work(task):
                 fp.writeframes(data)
 
     def make():
-        return SourceSys(kind, data, sw, ch, path)
+        s_ = SourceSys(kind, data, sw, ch, path)
+        if big:
+            s_.big_menu = [1, 1000, 4096, 4097, 8192, 65536] + ([None] if not kind.startswith("stdin") else [])
+        return s_
 
-    res = graph.explore(make, d=d, unpruned_depth=unpruned)
+    res = graph.explore(make, d=d, unpruned_depth=unpruned, max_depth=(3 if big else None))
     viol = []
     for hist, msg in res.violations:
         key = "source=%s samples=%d sw=%d ch=%d history=%s" % (kind, n, sw, ch, hist)
@@ -270,9 +290,11 @@ def work(task):
            "merges_validated": res.merges_validated,
            "samples": [{"source": kind, "samples": n, "sw": sw, "ch": ch, "deepest_new_state_history": res.sample,
                         "states": res.states, "closed": res.closed}]}
-    if not res.closed:
+    if not res.closed and not big:
         cov["exhaustive"] = False
         cov["caps_hit"] = ["%s n=%d: closure not reached" % (kind, n)]
+    if big:
+        cov["large_rows_not_exhaustive"] = res.histories
     return {"cov": cov, "viol": viol}
 
 
@@ -292,6 +314,10 @@ def run(prop, tier):
                 else:
                     d, unpruned = (2, 4) if quick else (3, 6)
                 tasks.append((kind, n, sw, ch, d, unpruned, tier))
+    # large contents, large reads (sizes where chunked or buffered implementations change behaviour)
+    for kind in ("buffer", "raw", "wav", "stdin", "stdin:4093", "stdin:8192,1"):
+        for (sw, ch) in ((2, 2), (1, 3)):
+            tasks.append((kind, 20011, sw, ch, 0, 3 if quick else 4, tier))
     # stdin with short reads: every way of cutting the byte stream into chunks (small contents),
     # fixed trickle patterns otherwise
     for (sw, ch) in FORMATS:
@@ -317,7 +343,7 @@ def run(prop, tier):
 def replay(case):
     lib()
     kind, n, sw, ch = case["source"], case["n"], case["sw"], case["ch"]
-    data = content(n, sw, ch)
+    data = content_big(n, sw, ch) if n > 1000 else content(n, sw, ch)
     path = None
     if kind in ("raw", "wav"):
         path = os.path.join(common.scratch_dir(), "replay.%s" % kind)
@@ -330,6 +356,12 @@ def replay(case):
                 fp.setnchannels(ch)
                 fp.writeframes(data)
     hist = [tuple(op) for op in case["history"]]
-    s, msg = graph.replay(lambda: SourceSys(kind, data, sw, ch, path), hist)
+    def mk():
+        s_ = SourceSys(kind, data, sw, ch, path)
+        if n > 1000:
+            s_.big_menu = [1]
+        return s_
+
+    s, msg = graph.replay(mk, hist)
     s.close()
     return msg
